@@ -20,7 +20,7 @@ CLAIMS = {
              ref="§7 C12", note=NOTE_TRANSLATED),
 }
 
-PENDING = {"C11"}   # machinery exists, proofs still in progress: not claimed yet
+PENDING = set()   # machinery exists, proofs still in progress: not claimed yet
 NOT_YET = "check under construction in this round; will be claimed as soon as its theorem + correspondence + oracle run end-to-end (DESIGN.md §13)"
 
 def main():
